@@ -2,6 +2,8 @@
 from __future__ import annotations
 
 import ast
+import os
+import sys
 import z3
 from typing import Dict, List, Optional, Set, Tuple
 
@@ -337,6 +339,8 @@ class StmtMixin:
             branches = []
             for cond, body, side in ((tc, n.body, True), (z3.Not(tc), n.orelse, False)):
                 if V.is_false(cond) or not self.feasible_with(st1, cond):
+                    if os.environ.get("PYVC_TRACE"):
+                        print("IF-PRUNED", getattr(n, "lineno", "?"), side, str(z3.simplify(cond))[:200], file=sys.stderr)
                     continue
                 s2 = st1.copy()
                 s2.assume(cond)
@@ -345,7 +349,7 @@ class StmtMixin:
                 res = self.block(body, s2, fr) if body else [("normal", s2, None)]
                 branches.append((cond, s2, res))
             normals = [[r for r in res if r[0] == "normal"] for _, _, res in branches]
-            if len(branches) == 2 and len(normals[0]) == 1 and len(normals[1]) == 1:
+            if len(branches) == 2 and len(normals[0]) == 1 and len(normals[1]) == 1 and not getattr(self, "no_merge", False):
                 m = self.merge_states(branches[0][0], st1, normals[0][0][1], normals[1][0][1])
                 if m is not None:
                     out.append(("normal", m, None))
